@@ -462,6 +462,7 @@ pub fn gen_c14(rng: &mut Rng) -> EnumCase {
     let mut p = Profile::default();
     p.max_items = 40;
     p.max_chroms = 3;
+    p.scaffolds = false;
     p.io_chaos = false;
     p.sched_chaos = false;
     p.zero_len_pm = 0;
